@@ -70,14 +70,11 @@ AddOversize(k, cost) ==
     /\ ev' = [phase |-> "done", k |-> k, cost |-> cost, added |-> FALSE, victims |-> <<>>, path |-> "oversize"]
     /\ UNCHANGED <<costs, used, maxCost, est, slack>>
 
-\* already charged: an update of the cost, not an addition
+\* already charged: not an addition; the item is not going to be stored, the charge stays
 AddPresent(k, cost) ==
     /\ Idle /\ cost <= maxCost /\ costs[k] # Nil
-    /\ costs' = [costs EXCEPT ![k] = cost]
-    /\ used' = used + cost - costs[k]
-    /\ slack' = Max2(0, slack + (cost - costs[k]))
     /\ ev' = [phase |-> "done", k |-> k, cost |-> cost, added |-> FALSE, victims |-> <<>>, path |-> "present"]
-    /\ UNCHANGED <<maxCost, est>>
+    /\ UNCHANGED <<costs, used, slack, maxCost, est>>
 
 \* enough room: admitted, nothing evicted
 AddRoom(k, cost) ==
